@@ -103,6 +103,11 @@ def gen(rnd):
         for dd in dirs:
             exp.append((base + '/' + dd, 'dir', None, tag, ''))
         exp.append((base, 'dir', None, tag, ''))
+        if rnd.random() < 0.5:
+            # a symbolic link whose target is a DIRECTORY that exists after the installation (uninstall must remove the link,
+            # not look through it)
+            lines.append("install_symlink('cur', pointing_to: 'tr', install_dir: 'share')")
+            exp.append((P + '/share/cur', 'link:tr', None, None, ''))
     if rnd.random() < 0.5:
         lines.append("install_emptydir('var/empty dir', install_mode: 'rwx------')")
         exp.append((P + '/var/empty dir', 'dir', 0o700, None, ''))
